@@ -299,7 +299,7 @@ Definition expand_or_falsify (rle : list (Z * Z)) (t : tri) (vl : bool) : tri :=
 
 (* Extractor.fine_class *)
 Definition fine_class (ct : chartab) (e : str) (c : Z) : Z :=
-  if ct_digit ct c then cD
+  if ct_decimal ct c then cD
   else if is_lower c then ca
   else if is_upper c then cA
   else if memc c e then cB
